@@ -281,9 +281,15 @@ func runC12(c *Check) {
 					// only on the MaxElapsedTime > 0 edge
 					var gt []Edge
 					for _, t := range Tests(I) {
-						if t.Op == token.GTR && AllOrigins(t.X, exportedFieldLoad("MaxElapsedTime")) {
-							if z, ok := IntConst(t.Y); ok && z == 0 {
+						if !AllOrigins(t.X, exportedFieldLoad("MaxElapsedTime")) {
+							continue
+						}
+						if z, ok := IntConst(t.Y); ok && z == 0 {
+							switch t.Op {
+							case token.GTR:
 								gt = append(gt, t.True)
+							case token.LEQ:
+								gt = append(gt, t.False) // `if x <= 0 { … }`: the other edge is x > 0
 							}
 						}
 					}
@@ -297,6 +303,34 @@ func runC12(c *Check) {
 			return false
 		})
 		c.Report(nTimeout > 0, P+".O4", "WAIT-MAX-ELAPSED", I, s.Pos(), k, "MaxElapsedTime (when > 0) bounds the waiting through WithTimeout on the context the wait listens on")
+		// … on every path of that edge: nothing else (a deadline the message already has, another option) decides whether the bound applies
+		{
+			var gtAll []Edge
+			for _, t := range Tests(I) {
+				if !AllOrigins(t.X, exportedFieldLoad("MaxElapsedTime")) {
+					continue
+				}
+				if z, ok := IntConst(t.Y); ok && z == 0 {
+					switch t.Op {
+					case token.GTR:
+						gtAll = append(gtAll, t.True)
+					case token.LEQ:
+						gtAll = append(gtAll, t.False)
+					}
+				}
+			}
+			var wts []ssa.Instruction
+			for _, cl := range CallsTo(I, nWithTimeout) {
+				wts = append(wts, cl)
+			}
+			okAlways := len(gtAll) > 0
+			for _, e := range gtAll {
+				if ReachEdge(e, NewCut().AddInstrs(wts...))[s] {
+					okAlways = false
+				}
+			}
+			c.Report(okAlways, P+".O4", "WAIT-MAX-ELAPSED-ALWAYS", I, s.Pos(), k, "whenever MaxElapsedTime > 0 the wait's context goes through WithTimeout (no further condition switches the bound off)")
+		}
 		c.Report(okCtx, P+".O4", "WAIT-CTX", I, s.Pos(), k, "the wait ends early on the message context, or on WithTimeout(message context, MaxElapsedTime) taken only when MaxElapsedTime > 0")
 		nb, okNB := firstOrigin(w.dur).(*ssa.Call)
 		okNB = okNB && CalleeName(nb) == "(*"+backoffPkg+".ExponentialBackOff).NextBackOff"
@@ -370,6 +404,13 @@ func c12Backoff(c *Check, P string, I *ssa.Function, b ssa.Value) {
 		c.Use(P+".O4", helper, "back-off construction helper")
 	}
 	c.Report(!InLoop(site) && site.Parent() == I, P+".O4", "BACKOFF-OBJECT", I, site.Pos(), "back-off object", "one back-off object per invocation, created inside the per-message closure (intervals grow across retries, nothing is shared between messages)")
+	for _, f := range WithStarted(I) {
+		for _, cl := range CallsIn(f) {
+			if CalleeName(cl) == "(*github.com/cenkalti/backoff/v3.ExponentialBackOff).Reset" {
+				c.Report(!InLoop(cl), P+".O4", "BACKOFF-RESET-ONCE", f, cl.Pos(), "back-off Reset", "the back-off is reset once, before the retry loop (a Reset inside the loop makes every wait the initial interval: the back-off never grows)")
+			}
+		}
+	}
 	want := map[string]bool{"InitialInterval": false, "MaxInterval": false, "Multiplier": false, "MaxElapsedTime": false, "RandomizationFactor": false}
 	for _, ref := range *nb.Referrers() {
 		fa, ok := ref.(*ssa.FieldAddr)
